@@ -247,7 +247,8 @@ def oracle(iv, c):
             vr_ = c["value_range"] or (None, None)
             dmin_ = 0.0 if vr_[0] is None else vr_[0]
             dmax_ = float(data.max()) if vr_[1] is None else vr_[1]
-            inside = [float(v) for v in data if dmin_ <= v <= dmax_ and dmin_ < dmax_]
+            # (a range that is the single point `lower` is covered by [lower, lower + width) of a right-open slicer)
+            inside = [float(v) for v in data if dmin_ <= v <= dmax_ and (dmin_ < dmax_ or c["right_open"])]
             if inside:
                 return ({"slicer": c["kind"], "clause": "exactly-one"}, "no interval at all although %r lie in the covered range [%r, %r]" % (inside[:5], dmin_, dmax_))
         return None
@@ -384,6 +385,13 @@ def run(ctx):
                     cases.append({"kind": "number", "data": xs, "n_intervals": 3, "reference": "center",
                                   "include_max": im, "value_range": None, "min_n_points": 0, "min_n_intervals": 0})
             cases.append({"kind": "ppi", "data": xs, "n_points": 2, "last_full": True, "min_n_points": 0, "min_n_intervals": 0})
+    # EVERY run: the covered range is a single point (all data on the lower limit / the upper limit equal to the lower one)
+    for w in (1.0, 0.5, 0.1):
+        for ro in (True, False):
+            for data, vr in (([0.0], None), ([0.0, 0.0], None), ([1.0, 2.0, 2.0], (2.0, None)), ([3 * w, 3 * w, w], (3 * w, 3 * w)), ([-w, 0.0], None)):
+                for mn in (0, 1):
+                    cases.append({"kind": "width", "data": data, "width": w, "reference": "left", "right_open": ro, "value_range": vr,
+                                  "min_n_points": mn, "min_n_intervals": mn})
     results = [run_impl(iv, c) for c in cases]
     dist = {}
     for c, r in zip(cases, results):
